@@ -21,6 +21,7 @@ import subprocess
 import time
 
 from .. import core, build, hrun, sandbox
+from .. import shim as _shim
 from .. import gen_rfc822 as g
 
 PROP = "C17"
@@ -30,7 +31,7 @@ REMOTE_OBJS = ("control.o constmap.o timeoutread.o timeoutwrite.o timeoutconn.o 
 SMTPD_OBJS = ("rcpthosts.o commands.o ip.o ipme.o ipalloc.o control.o constmap.o received.o "
               "date822fmt.o qmail.o cdb.a fd.a wait.a datetime.a getln.a open.a sig.a case.a env.a "
               "stralloc.a substdio.a error.a str.a fs.a auto_qmail.o").split()
-QQREC = os.path.join(core.VERIF, "bin", "qq-rec")
+QQREC = _shim.tool("qq-rec")
 
 
 def build_harness(b):
